@@ -19,7 +19,7 @@ LEVEL = "other"
 NOT_COVERED = ["the third-party codecs and the batching framing of serializer.py",
                "message classes not listed among the functions under contract (the large option-carrying classes: Hello, "
                "Welcome, Challenge, Authenticate, Error, Publish, Event, Call, Result, Register, Invocation, Yield)",
-               "forward_for chains (lists of principals): the classes that carry one are proved for forward_for=None", "the per-message serialization cache (Message._serialized / uncache)"]
+               "application payload (args / kwargs / transparent payload)", "the per-message serialization cache (Message._serialized / uncache)"]
 MSG = "autobahn.wamp.message"
 BASE = {"_from_fbs": "none", "_serialized": "any", "_correlation_id": "any", "_correlation_uri": "any",
         "_correlation_is_anchor": "any", "_correlation_is_last": "any", "_router_internal": "any"}
@@ -65,22 +65,24 @@ def build(reg):
     lemma("rt_goodbye", "Goodbye", {"_reason": "str", "_message": "opt:str", "_resumable": "opt:bool"},
           [URI_OK % "_reason"], ["reason", "message", "resumable"])
     lemma("rt_abort", "Abort", {"_reason": "str", "_message": "opt:str"}, [URI_OK % "_reason"], ["reason", "message"])
-    FF_NONE = "m._forward_for is None"      # forwarding chains (lists of principals) are outside this check
-    lemma("rt_cancel", "Cancel", {"_request": "int", "_mode": "opt:str", "_forward_for": "none"},
-          [ID % "_request", "m._mode is None or m._mode == 'skip' or m._mode == 'killnowait' or m._mode == 'kill'"],
+    # forwarding chains: None, or a list (any length) of principals as the constructor requires them
+    FFT = "none|ulist:@FFE"
+    FF_REQ = "implies(m._forward_for is not None, forall(q, 0, len(m._forward_for), %s))" % c08.FF_OK.replace("%s", "m._forward_for[q]")
+    lemma("rt_cancel", "Cancel", {"_request": "int", "_mode": "opt:str", "_forward_for": FFT},
+          [ID % "_request", "m._mode is None or m._mode == 'skip' or m._mode == 'killnowait' or m._mode == 'kill'", FF_REQ],
           ["request", "mode", "forward_for"])
-    lemma("rt_interrupt", "Interrupt", {"_request": "int", "_mode": "opt:str", "_reason": "opt:str", "_forward_for": "none"},
+    lemma("rt_interrupt", "Interrupt", {"_request": "int", "_mode": "opt:str", "_reason": "opt:str", "_forward_for": FFT},
           [ID % "_request", "m._mode is None or m._mode == 'killnowait' or m._mode == 'kill'",
-           "implies(m._reason is not None, %s)" % (URI_OK % "_reason")],
+           "implies(m._reason is not None, %s)" % (URI_OK % "_reason"), FF_REQ],
           ["request", "mode", "reason", "forward_for"])
-    lemma("rt_unsubscribe", "Unsubscribe", {"_request": "int", "_subscription": "int", "_forward_for": "none"},
-          [ID % "_request", ID % "_subscription"], ["request", "subscription", "forward_for"])
-    lemma("rt_unregister", "Unregister", {"_request": "int", "_registration": "int", "_forward_for": "none"},
-          [ID % "_request", ID % "_registration"], ["request", "registration", "forward_for"])
+    lemma("rt_unsubscribe", "Unsubscribe", {"_request": "int", "_subscription": "int", "_forward_for": FFT},
+          [ID % "_request", ID % "_subscription", FF_REQ], ["request", "subscription", "forward_for"])
+    lemma("rt_unregister", "Unregister", {"_request": "int", "_registration": "int", "_forward_for": FFT},
+          [ID % "_request", ID % "_registration", FF_REQ], ["request", "registration", "forward_for"])
     lemma("rt_subscribe", "Subscribe", {"_request": "int", "_topic": "str", "_match": "str", "_get_retained": "opt:bool",
-                                         "_forward_for": "none"},
+                                         "_forward_for": FFT},
           [ID % "_request", "uri_ok(m._topic, False, False, True)",
-           "m._match == 'exact' or m._match == 'prefix' or m._match == 'wildcard'"],
+           "m._match == 'exact' or m._match == 'prefix' or m._match == 'wildcard'", FF_REQ],
           ["request", "topic", "match", "get_retained", "forward_for"], extra_inline=["marshal_options"])
 
 
@@ -138,6 +140,8 @@ def replay(o):
         if k.startswith("m._") and k[3:] not in ("from_fbs", "serialized", "router_internal") and not k.startswith("m._correlation"):
             if isinstance(v, (int, str, bool)) or v is None:
                 fields[k[3:]] = v
+            elif isinstance(v, list):      # forward_for chain: [{"dict": {...}}, ...]
+                fields[k[3:]] = [dict(e["dict"]) if isinstance(e, dict) and "dict" in e else e for e in v]
     out = Rp.run_py(_HARNESS.replace("CASE", repr({"cls": mt.group(1), "fields": fields})))
     bad = isinstance(out, dict) and bool(out.get("diff"))
     return {"reproduced": bad, "case": {"cls": mt.group(1), "fields": fields}, "observed": out,
